@@ -321,6 +321,10 @@ class Parser:
 
     def process_statement(self) -> None:
         if not self.set_line and self.statement:
+            if self.statement.endswith(";"):
+                # a one-line statement that followed a statement without ';' is
+                # parsed when the input ends: its terminator is still attached
+                self.statement = self.statement[:-1]
             self.parse_statement()
         if self.new_statement:
             self.statement = self.line
